@@ -112,6 +112,8 @@ func pureC08(c *Ctx) {
 			errT := types.Universe.Lookup("error").Type()
 			if types.Identical(g.Type().(*types.Pointer).Elem(), errT) && !assignedOutsideInit(p, g) {
 				c.OK("C08.pure", key, pos, "an error value assigned only at initialisation")
+			} else if !assignedOutsideInit(p, g) && !hasSyncType(g.Type(), 0) && !elementWritten(p, g) {
+				c.OK("C08.pure", key, pos, "a table that nothing outside initialisation assigns or writes into")
 			} else {
 				c.Bad("C08.pure", key, pos, "package-level state on the way from spelling to duration: the result can depend on what was parsed before")
 			}
@@ -759,4 +761,79 @@ func exactGuardC08(c *Ctx, ifi *ssa.If, errOnTrue bool, num, mult, acc ssa.Value
 	default:
 		c.Bad("C08.overflow", key, bo.Pos(), "the comparison does not reject components above (MaxInt64 - total) / multiplier")
 	}
+}
+
+// hasSyncType: the type contains a type of package sync or sync/atomic.
+func hasSyncType(t types.Type, depth int) bool {
+	if depth > 5 {
+		return false
+	}
+	switch x := t.(type) {
+	case *types.Named:
+		if x.Obj().Pkg() != nil && (x.Obj().Pkg().Path() == "sync" || x.Obj().Pkg().Path() == "sync/atomic") {
+			return true
+		}
+		return hasSyncType(x.Underlying(), depth+1)
+	case *types.Pointer:
+		return hasSyncType(x.Elem(), depth+1)
+	case *types.Slice:
+		return hasSyncType(x.Elem(), depth+1)
+	case *types.Array:
+		return hasSyncType(x.Elem(), depth+1)
+	case *types.Map:
+		return hasSyncType(x.Elem(), depth+1)
+	case *types.Struct:
+		for i := 0; i < x.NumFields(); i++ {
+			if hasSyncType(x.Field(i).Type(), depth+1) {
+				return true
+			}
+		}
+	}
+	return false
+}
+
+// elementWritten: some function outside init stores through an address
+// derived from the global (element, field) or updates it as a map.
+func elementWritten(p *Program, g *ssa.Global) bool {
+	var rooted func(v ssa.Value, depth int) bool
+	rooted = func(v ssa.Value, depth int) bool {
+		if depth > 6 {
+			return false
+		}
+		switch x := v.(type) {
+		case *ssa.Global:
+			return x == g
+		case *ssa.UnOp:
+			return rooted(x.X, depth+1)
+		case *ssa.IndexAddr:
+			return rooted(x.X, depth+1)
+		case *ssa.FieldAddr:
+			return rooted(x.X, depth+1)
+		case *ssa.Slice:
+			return rooted(x.X, depth+1)
+		}
+		return false
+	}
+	for _, fn := range p.SrcFuncs() {
+		if fn.Name() == "init" {
+			continue
+		}
+		for _, f := range append([]*ssa.Function{fn}, fn.AnonFuncs...) {
+			for _, b := range f.Blocks {
+				for _, in := range b.Instrs {
+					switch x := in.(type) {
+					case *ssa.Store:
+						if x.Addr != ssa.Value(g) && rooted(x.Addr, 0) {
+							return true
+						}
+					case *ssa.MapUpdate:
+						if rooted(x.Map, 0) {
+							return true
+						}
+					}
+				}
+			}
+		}
+	}
+	return false
 }
